@@ -609,8 +609,50 @@ theorem C16_import_search (migs : List GMig) (hasym : ∀ m ∈ migs, m.sym = no
       | none => 0)
     ∧ ∀ e, epochSearch eps i0 i1 = some e →
         (epochCovers e.st e.et i0 i1 = true ∧ ∃ pre post, eps = pre ++ e :: post ∧ ∀ y ∈ pre, epochCovers y.st y.et i0 i1 = false)
-        ∨ ((∀ y ∈ eps, epochCovers y.st y.et i0 i1 = false) ∧ eps.getLast? = some e) :=
-  ⟨migRate_spec migs hasym s d i0 i1, fun e h => epochSearch_spec eps i0 i1 e h⟩
+        ∨ ((∀ y ∈ eps, epochCovers y.st y.et i0 i1 = false) ∧ eps.getLast? = some e) := by
+  constructor
+  · unfold migRate
+    have hstep : ∀ m ∈ migs, ∀ r : ℚ, migRateStep r m s d i0 i1
+        = if (m.source == s && m.dest == d && (tge m.st i0 && tle (some m.et) i1)) then m.rate else r := by
+      intro m hm r
+      unfold migRateStep
+      rw [hasym m hm]
+      simp only
+      cases h1 : (m.source == s && m.dest == d) <;> cases h2 : (tge m.st i0 && tle (some m.et) i1) <;> simp [h1, h2]
+    have hfold : ∀ (l : List GMig), (∀ m ∈ l, m ∈ migs) → ∀ init : ℚ,
+        l.foldl (fun r m => migRateStep r m s d i0 i1) init
+          = l.foldl (fun r m => if (m.source == s && m.dest == d && (tge m.st i0 && tle (some m.et) i1)) then m.rate else r) init := by
+      intro l
+      induction l with
+      | nil => intro _ init; rfl
+      | cons m ms ih =>
+        intro hsub init
+        simp only [List.foldl_cons]
+        rw [hstep m (hsub m List.mem_cons_self), ih (fun x hx => hsub x (List.mem_cons_of_mem _ hx))]
+    rw [hfold migs (fun m hm => hm), foldl_last_match]
+    simp only [migRateInit]
+    cases (migs.filter fun m => m.source == s && m.dest == d && (tge m.st i0 && tle (some m.et) i1)).getLast? <;> simp
+  · intro e h
+    unfold epochSearch forBreak at h
+    cases hf : eps.find? (fun epoch => tge epoch.st i0 && tle epoch.et i1) with
+    | some x =>
+      rw [hf] at h
+      simp only [Option.some.injEq] at h
+      subst h
+      left
+      obtain ⟨hc, pre, post, hl, hpre⟩ := List.find?_eq_some_iff_append.1 hf
+      refine ⟨hc, pre, post, hl, ?_⟩
+      intro y hy
+      have := hpre y hy
+      unfold epochCovers
+      cases h1 : tge y.st i0 <;> cases h2 : tle y.et i1 <;> simp_all
+    | none =>
+      rw [hf] at h
+      right
+      refine ⟨?_, h⟩
+      intro y hy
+      have := List.find?_eq_none.1 hf y hy
+      simpa [epochCovers] using this
 
 example : migRate exGraph.migs ⟨1, []⟩ ⟨2, []⟩ (some 20) (some 0) = 1/100 ∧ migRate exGraph.migs ⟨2, []⟩ ⟨1, []⟩ (some 20) (some 0) = 0
     ∧ (epochSearch (epochsOf (some 20) [{ fn := SizeFn.constant, ss := 5, es := 5, et := 10 }, { fn := SizeFn.linear, ss := 5, es := 9, et := 0 }]) (some 10) (some 4)).map (·.fn)
